@@ -159,3 +159,78 @@ impl<'a> TryFrom<&'a Store> for PriceValidator {
         })
     }
 }
+
+/// Verification hooks (add-only, compiled only with `--cfg gmsol_verif`).
+#[cfg(gmsol_verif)]
+pub mod verif {
+    use super::*;
+
+    /// Build a validator from explicit settings (the production constructor is
+    /// `PriceValidator::try_from(&Store)`).
+    pub fn new(
+        clock: Clock,
+        max_age: Amount,
+        max_oracle_timestamp_range: Amount,
+        max_future_timestamp_excess: Amount,
+    ) -> PriceValidator {
+        PriceValidator {
+            clock,
+            max_age,
+            max_oracle_timestamp_range,
+            max_future_timestamp_excess,
+            min_oracle_ts: i64::MAX,
+            max_oracle_ts: i64::MIN,
+            min_oracle_slot: None,
+        }
+    }
+
+    /// (min_oracle_ts, max_oracle_ts, min_oracle_slot).
+    pub fn state(v: &PriceValidator) -> (i64, i64, Option<u64>) {
+        (v.min_oracle_ts, v.max_oracle_ts, v.min_oracle_slot)
+    }
+
+    /// (now, max_age, max_oracle_timestamp_range, max_future_timestamp_excess).
+    pub fn settings(v: &PriceValidator) -> (i64, Amount, Amount, Amount) {
+        (
+            v.clock.unix_timestamp,
+            v.max_age,
+            v.max_oracle_timestamp_range,
+            v.max_future_timestamp_excess,
+        )
+    }
+
+    /// [`PriceValidator::validate_one`].
+    pub fn validate_one(
+        v: &mut PriceValidator,
+        token_config: &TokenConfig,
+        provider: &PriceProviderKind,
+        oracle_ts: i64,
+        oracle_slot: u64,
+        price: &Price,
+        ref_price: Option<&Decimal>,
+    ) -> Result<()> {
+        v.validate_one(
+            token_config,
+            provider,
+            oracle_ts,
+            oracle_slot,
+            price,
+            ref_price,
+        )
+    }
+
+    /// [`PriceValidator::merge_range`].
+    pub fn merge_range(
+        v: &mut PriceValidator,
+        min_oracle_slot: Option<u64>,
+        min_oracle_ts: i64,
+        max_oracle_ts: i64,
+    ) {
+        v.merge_range(min_oracle_slot, min_oracle_ts, max_oracle_ts)
+    }
+
+    /// [`PriceValidator::finish`].
+    pub fn finish(v: PriceValidator) -> Result<Option<(u64, i64, i64)>> {
+        v.finish()
+    }
+}
